@@ -55,8 +55,8 @@ func c08LiveQuery(t geom.T, m *ref.G, final bool) string {
 func init() {
 	engine.Register(&engine.Check{
 		ID: "C08", Level: "model_checking",
-		Rule: "(a) every geometry of U (6 layouts, non-monotonic values) and every collection of 0..3 members over an 8-member menu (mixed layouts, empty members, nested and empty nested collections): Bounds() per semantic dimension vs reference fold, IsEmpty, Bounds.Polygon, GeoJSON bbox; (b) BFS over Extend histories (depth <=4 quick, <=5 thorough) from NewBounds(l), l in {NoLayout,XY,XYZ,XYM,XYZM}, alphabet = 1-point, 2-point and empty geometry per layout: state = (layout, min bits, max bits); every state compared per semantic dimension with the fold over the multiset and with every other history reaching the same multiset; (c) Overlaps/OverlapsPoint on all pairs of boxes with interval endpoints in {0..3} (2D) / {0..2} (3D) incl. empty intervals vs closed-interval arithmetic",
-		Run:    c08Run,
+		Rule: "(a) every geometry of U (6 layouts, non-monotonic values) and every collection of 0..3 members over an 8-member menu (mixed layouts, empty members, nested and empty nested collections): Bounds() per semantic dimension vs reference fold, IsEmpty, Bounds.Polygon, GeoJSON bbox; (b) BFS over Extend histories (depth <=4 quick, <=5 thorough) from NewBounds(l), l in {NoLayout,XY,XYZ,XYM,XYZM}, alphabet = 1-point, 2-point and empty geometry per layout: state = (layout, min bits, max bits); every state compared per semantic dimension with the fold over the multiset and with every other history reaching the same multiset; (c) Overlaps/OverlapsPoint on all pairs of boxes with interval endpoints in {0..3} (2D) / {0..2} (3D) incl. empty intervals vs closed-interval arithmetic Also: overlap queries in a narrower layout than the boxes (extra dimensions holding an interval or nothing), and every query / in-place change / query history of length <=3 (thorough 4) on live geometries and collections (members edited or pushed into after the collection was asked for its bounds; the returned box extended by the caller).",
+		Run:  c08Run,
 		Replay: func(c *engine.Ctx, kind string, raw json.RawMessage) {
 			if kind == "c08-history" {
 				replayLive(c, kind, "history", decodeCase[liveCase](raw), c08LiveQuery)
